@@ -1196,16 +1196,24 @@ func (r *nodeRun) reinitProbes(c *cluster, obs *vnode, round string) {
 		snap := rawSnap(obs)
 		before := publicProj(obs, round)
 		beforeAll := nodeRender(obs)
+		var perr error
 		func() {
 			defer func() {
 				if rec := recover(); rec != nil {
 					r.mon(fmt.Sprintf("C18 never_panics: ProcessMessage panicked on a crafted reinit message (%s)", name))
 				}
 			}()
-			obs.svc.ProcessMessage(m)
+			perr = obs.svc.ProcessMessage(m)
 		}()
 		after := publicProj(obs, round)
 		r.st.ReinitProbes++
+		// refused means refused: a re-initialisation message the node answers with an error leaves nothing behind - no round,
+		// no pending operation, no signature entry
+		if perr != nil {
+			if now := nodeRender(obs); now != beforeAll {
+				r.mon(fmt.Sprintf("C18 reject_is_noop: a re-initialisation message (%s) was refused (%s) and still changed the node %s", name, truncate(perr.Error(), 100), firstDiff(beforeAll, now)))
+			}
+		}
 		if after != before {
 			r.mon(fmt.Sprintf("C08 round_noninterference: a re-initialisation message (%s: envelope round %.8s…, dkg_id %.8s…) posted by a stranger changed the existing round %.8s… %s", name, envelope, dkgID, round, firstDiff(before, after)))
 		}
@@ -1217,6 +1225,8 @@ func (r *nodeRun) reinitProbes(c *cluster, obs *vnode, round string) {
 	}
 	probe("fresh id, inner messages of an existing round", "fresh-round-x", "fresh-round-x")
 	probe("envelope names an existing round, dkg_id fresh", round, "fresh-round-y")
+	probe("no dkg_id", "fresh-round-z", "")
+	probe("a dkg_id of blanks", "fresh-round-z", "  ")
 }
 
 // reinitObserved: the observed node, with an empty state database again, is re-initialised from a dump of the board by
